@@ -67,7 +67,11 @@ func (w *world) space(owner *sg.Mod, n *sg.Node) (*vt.Space, bool) {
 	if n.DefMod != "" {
 		dm = w.byName[n.DefMod]
 	}
-	return sg.SpaceOf(w.mods, dm, n.Type, owner)
+	lm := owner
+	if n.NsMod != "" {
+		lm = w.byName[n.NsMod]
+	}
+	return sg.SpaceOf(w.mods, dm, n.Type, lm)
 }
 
 func (w *world) walk(owner *sg.Mod, kids []*sg.Node, toks []string, i int, incomplete bool) verdict {
